@@ -12,7 +12,11 @@ pub(crate) struct Table {
 
 impl Table {
     pub const fn new() -> Self {
-        Table { n: 0, arg: [0.0; SLOTS], val: [0.0; SLOTS] }
+        Table {
+            n: 0,
+            arg: [0.0; SLOTS],
+            val: [0.0; SLOTS],
+        }
     }
     pub(crate) fn find(&self, x: f64) -> Option<f64> {
         let mut i = 0;
